@@ -18,8 +18,12 @@ def is_site(ev):
     return not ev.is_probe
 
 
+LATE_KINDS = {"rename", "replace", "link"}   # operations whose failure may be REPORTED although they took effect (lost reply)
+
+
 class Injector:
     def __init__(self, root, k, errno_name="EIO", sticky=False):
+        self.pending_late = None
         self.root = os.path.realpath(root)
         self.k, self.errno_name, self.sticky = k, errno_name, sticky
         self.n = 0
@@ -31,8 +35,23 @@ class Injector:
         code = ERRNOS[self.errno_name]
         raise OSError(code, os.strerror(code) + " [injected]", ev.dest)
 
+    def after(self, ev):
+        """fsi 'after_path_op' hook: mode "late" lets the k-th rename / replace / link TAKE EFFECT and then reports EIO."""
+        if self.pending_late is ev:
+            self.pending_late = None
+            self._raise(ev)
+
     def __call__(self, ev):
         if not is_site(ev):
+            return
+        if self.sticky == "late":
+            if ev.kind not in LATE_KINDS or self.fired is not None:
+                return
+            if self.n == self.k:
+                self.fired = ev
+                self.bad_path = ev.dest
+                self.pending_late = ev
+            self.n += 1
             return
         if self.sticky == "full":
             # "the disk fills up": from the k-th space-consuming operation on, EVERY space-consuming operation fails
@@ -60,7 +79,8 @@ class Injector:
 
     def describe(self):
         ev = self.fired
-        how = "from then on at every operation that needs space (disk full)" if self.sticky == "full" else \
+        how = "reported AFTER the operation took effect (lost reply)" if self.sticky == "late" else \
+            "from then on at every operation that needs space (disk full)" if self.sticky == "full" else \
             "persisting for the destination" if self.sticky else "once"
         return (f"{self.errno_name} {how} at site "
                 f"#{self.k} [{ev.brief(self.root) if ev else '-'}]")
@@ -92,7 +112,9 @@ def faulted_runs(sc, modes=(False, True), errnos=("EIO",), max_sites=400, store_
                 if runner is not None:
                     out = runner(store, d, inj)
                 else:
-                    with fsi.active(d, inj):
+                    with fsi.active(d, inj) as fctx:
+                        if sticky == "late":
+                            fctx.after_path_op = inj.after
                         out = sc.call_target(store)
                 if inj.fired is None:
                     sc.discard(d)
